@@ -27,18 +27,37 @@ use vsim::harness_op;
 pub struct Rec {
     pub cur: AtomicUsize,
     pub trace: Mutex<Vec<(usize, Cb)>>,
+    /// User code dropping every write handle from inside a lifecycle callback: when the trace
+    /// reaches this length the hook (installed by the system under test) is run once.
+    drop_at: Option<usize>,
+    hook: Mutex<Option<Box<dyn FnMut() + Send>>>,
 }
 
 impl Rec {
-    pub fn new() -> Arc<Rec> {
+    pub fn new(drop_at: Option<usize>) -> Arc<Rec> {
         Arc::new(Rec {
             cur: AtomicUsize::new(0),
             trace: Mutex::new(vec![]),
+            drop_at,
+            hook: Mutex::new(None),
         })
+    }
+    pub fn set_hook(&self, f: impl FnMut() + Send + 'static) {
+        *self.hook.lock() = Some(Box::new(f));
     }
     pub fn rec(&self, cb: Cb) {
         let i = self.cur.load(Ordering::SeqCst);
-        self.trace.lock().push((i, cb));
+        let len = {
+            let mut t = self.trace.lock();
+            t.push((i, cb));
+            t.len()
+        };
+        if self.drop_at == Some(len) {
+            let hook = self.hook.lock().take();
+            if let Some(mut h) = hook {
+                h();
+            }
+        }
     }
 }
 
@@ -69,6 +88,8 @@ pub struct Cfg {
     pub seed: u64,
     pub budget: usize,
     pub in_cap: usize,
+    /// Drop every write handle from inside the n-th lifecycle callback (1-based).
+    pub drop_at: Option<usize>,
 }
 
 /// A system under test.
@@ -100,13 +121,21 @@ pub struct ClientSys {
     waker: Waker,
     in_tx: Option<ByteWriter>,
     out_rx: Option<ByteReader>,
+    senders: Arc<Mutex<Senders>>,
+    result: Option<Result<(), String>>,
+    cfg: Cfg,
+    rec: Arc<Rec>,
+}
+
+#[derive(Default)]
+struct Senders {
     value_tx: Option<mpsc::Sender<ValueDownlinkSet<i32>>>,
     map_tx: Option<mpsc::Sender<MapOperation<i32, i32>>>,
-    result: Option<Result<(), String>>,
 }
 
 impl ClientSys {
     pub fn new(cfg: &Cfg, rec: Arc<Rec>) -> ClientSys {
+        let rec2 = rec.clone();
         let (in_tx, in_rx) = byte_channel(nz(cfg.in_cap));
         let (out_tx, out_rx) = byte_channel(nz(OUT_CAP));
         let config = DownlinkConfig {
@@ -149,15 +178,19 @@ impl ClientSys {
         let fut = fut.with_budget(nz(cfg.budget)).boxed();
         let flag = Arc::new(Flag(AtomicBool::new(true)));
         let waker = Waker::from(flag.clone());
+        let senders = Arc::new(Mutex::new(Senders { value_tx, map_tx }));
+        let s2 = senders.clone();
+        rec2.set_hook(move || *s2.lock() = Senders::default());
         ClientSys {
             fut: Some(fut),
             flag,
             waker,
             in_tx: Some(in_tx),
             out_rx: Some(out_rx),
-            value_tx,
-            map_tx,
+            senders,
             result: None,
+            cfg: *cfg,
+            rec: rec2,
         }
     }
 }
@@ -197,22 +230,22 @@ impl Sys for ClientSys {
         // the model's channel (never full here: the harness settles after every write)
         match w {
             Write::Set(v) => {
-                if let Some(tx) = &self.value_tx {
+                if let Some(tx) = &self.senders.lock().value_tx {
                     let _ = tx.try_send(ValueDownlinkSet { to: *v });
                 }
             }
             Write::Upd(k, v) => {
-                if let Some(tx) = &self.map_tx {
+                if let Some(tx) = &self.senders.lock().map_tx {
                     let _ = tx.try_send(MapOperation::Update { key: *k, value: *v });
                 }
             }
             Write::Rem(k) => {
-                if let Some(tx) = &self.map_tx {
+                if let Some(tx) = &self.senders.lock().map_tx {
                     let _ = tx.try_send(MapOperation::Remove { key: *k });
                 }
             }
             Write::Clear => {
-                if let Some(tx) = &self.map_tx {
+                if let Some(tx) = &self.senders.lock().map_tx {
                     let _ = tx.try_send(MapOperation::Clear);
                 }
             }
@@ -222,11 +255,12 @@ impl Sys for ClientSys {
     fn control(&mut self, _idx: usize, c: &Ctl) {
         match c {
             Ctl::DropWriters => {
-                self.value_tx = None;
-                self.map_tx = None;
+                *self.senders.lock() = Senders::default();
             }
             Ctl::DropOutput => self.out_rx = None,
             Ctl::Stop => {}
+            // a new session on new channels: for a stand-alone client downlink that is a new task
+            Ctl::Reconnect => *self = ClientSys::new(&self.cfg.clone(), self.rec.clone()),
         }
     }
 
